@@ -44,6 +44,14 @@ PROPERTIES = {
         explanation="dataset invariant kd_wf as a pre/postcondition pair of the real callbacks",
         assumptions=["insert_data / data_by_value call the contracted primitives as read (not verified)"],
     ),
+    'C07': dict(
+        units=['u_seg'],
+        level_text="Narrow claim: deductive proof (Verus/Z3) that SegmentationIter::next yields consecutive, non-empty, non-overlapping pieces that stay inside the segmented range, cuts only at positions where a known selection begins or ends (never at an empty milestone entry) or at the end of the range, skips no such boundary, and terminates. The rest of C07 (exact / case-insensitive / regex search, split, trim) compares against str and regex library behaviour on UTF-8 bytes, which no contract within reach can express, and is NOT claimed.",
+        level_note="Trusted: the positions iterator yields the keys of the position index in strictly increasing order; TextResource::position is a plain index lookup; textselection(&offset) succeeds exactly for accepted offsets (proved for the underlying functions in u_off).",
+        design_ref='DESIGN.md §7.6',
+        explanation="partition and boundary clauses on the real SegmentationIter::next with the iterator and resource accessors stubbed",
+        assumptions=["find_text / find_text_nocase / find_text_regex / split_text / trim_text are not covered by this check"],
+    ),
 }
 
 NOT_APPLICABLE = {
